@@ -120,9 +120,9 @@ V('c02-load-owned-caches', 'C02', 'C02.R1', (A, '''    fn _load_owned<T: Compoun
         let entry = self.load_owned_entry(id, Type::of::<T>())?;''', '''    fn _load_owned<T: Compound>(&self, id: &str) -> Result<T, Error> {
         let _ = self.load_entry(id, Type::of::<T>());
         let entry = self.load_owned_entry(id, Type::of::<T>())?;'''))
-V('c02-insert-before-check', 'C02', 'C02.R2', (A, '''        let entry = crate::asset::load_and_record(cache, id, typ)?;
+V('c02-insert-before-check', 'C02', 'C02.R2', (A, '''        let entry = crate::asset::load_and_record(cache, id, typ, true)?;
 
-        Ok(self.assets().insert(entry))''', '''        let entry = match crate::asset::load_and_record(cache, id.clone(), typ) {
+        Ok(self.assets().insert(entry))''', '''        let entry = match crate::asset::load_and_record(cache, id.clone(), typ, true) {
             Ok(e) => e,
             Err(err) => {
                 // remember the failure
@@ -356,10 +356,10 @@ V('c13-forget-old-value', 'C13', 'C13.R3', (E, '''                d.reload_globa
             std::mem::forget(value);
             return;'''))
 V('c13-take-duplicates', 'C13', 'C13.R3', (C, '''        let (asset, _) = self.assets.take(id, TypeId::of::<T>())?.into_inner();
-        Some(asset)''', '''        let (asset, _) = self.assets.take(id, TypeId::of::<T>())?.into_inner();
+''', '''        let (asset, _) = self.assets.take(id, TypeId::of::<T>())?.into_inner();
         let copy = unsafe { std::ptr::read(&asset) };
         drop(copy);
-        Some(asset)'''))
+'''))
 V('c13-is-compares-wrong-type', 'C13', 'C13.R1', (E, '''    fn is<T: 'static>(&self) -> bool {
         self.type_id == TypeId::of::<T>()
     }
@@ -452,11 +452,11 @@ V('c08-wait-even-if-send-failed', 'C08', 'C08.R4', (H, '''        if self
         ));
         self.answers.wait_for_answer(token);'''))
 V('c08-wait-for-any-token', 'C08', 'C08.R4', (H, '''|t| *t != Some(token));''', '''|t| t.is_none());'''))
-V('c08-load-under-shard-lock', 'C08', 'C08.R5', (A, '''        let entry = crate::asset::load_and_record(cache, id, typ)?;
+V('c08-load-under-shard-lock', 'C08', 'C08.R5', (A, '''        let entry = crate::asset::load_and_record(cache, id, typ, true)?;
 
-        Ok(self.assets().insert(entry))''', '''        let entry = crate::asset::load_and_record(cache, id, typ)?;
+        Ok(self.assets().insert(entry))''', '''        let entry = crate::asset::load_and_record(cache, id, typ, true)?;
         let _busy = BUSY.lock().unwrap_or_else(|e| e.into_inner());
-        let again = crate::asset::load_and_record(cache, entry.id().clone(), typ);
+        let again = crate::asset::load_and_record(cache, entry.id().clone(), typ, false);
         drop(again);
 
         Ok(self.assets().insert(entry))'''), (A, '''pub(crate) trait RawCache: Sized {''', '''static BUSY: std::sync::Mutex<()> = std::sync::Mutex::new(());
